@@ -1,5 +1,6 @@
 import KoalaVerif.Props.C01
 import KoalaVerif.Model.Tables
+import KoalaVerif.Lemmas.AngOrder
 import Mathlib.Data.List.Basic
 import Mathlib.Data.List.Induction
 
@@ -285,6 +286,13 @@ theorem vertex_row_complete (L : Lat) (v e : Nat) :
 
 theorem vertex_row_nodup (L : Lat) (v : Nat) : (rotAt L v).Nodup :=
   (rotAt_perm L v).nodup_iff.mpr (incident_nodup L v)
+
+/-- **the incident-edge list is in clockwise cyclic order starting after 12 o'clock**: along the row the anticlockwise angle
+    from the +y axis, taken in `[0, 2π)`, never increases — no earlier edge has a smaller angle than a later one (exact
+    quadrant + cross-product comparison; ties are parallel edges).  Needs only that no incident edge has zero length. -/
+theorem vertex_row_sorted (L : Lat) (v : Nat) (hnz : ∀ e ∈ incident L v, outVec L v e ≠ (0, 0)) :
+    (rotAt L v).Pairwise fun a b => angLt (outVec L v a) (outVec L v b) = false :=
+  AngOrder.rotAt_sorted L v hnz
 
 /-! ### helpers agree with the tables -/
 
